@@ -18,7 +18,7 @@ LEVEL = 'model_checking'
 
 FCH, TCH, DF, DT = 16, 4, 2.0, 1.0
 
-SIGNALS = ['gauss_drift', 'box_sine', 'array_forms', 'scalar_forms', 'int_path_t', 'int_f', 'smear', 'all_flags', 'smear_arrays']
+SIGNALS = ['gauss_drift', 'box_sine', 'array_forms', 'scalar_forms', 'int_path_t', 'int_f', 'smear', 'all_flags', 'smear_arrays', 'pulse_phase']
 RANGES = ['none', 'inside', 'clip_low', 'clip_high', 'above', 'below', 'single', 'reversed']
 BAD = ['bad_shape', 'bad_type']
 
@@ -47,7 +47,7 @@ def signal_args(fr, name):
     if name == 'gauss_drift':
         return dict(path=stg.constant_path(f(5), 1.1), t_profile=stg.constant_t_profile(2.0), f_profile=stg.gaussian_f_profile(3.0))
     if name == 'box_sine':
-        return dict(path=stg.constant_path(f(11), -1.5), t_profile=stg.sine_t_profile(3.0, amplitude=0.5, level=1.5),
+        return dict(path=stg.constant_path(f(11), -1.5), t_profile=stg.sine_t_profile(3.0, phase=0.4, amplitude=0.5, level=1.5),
                     f_profile=stg.box_f_profile(3.0 * DF))
     if name == 'array_forms':
         return dict(path=np.array([f(2), f(3), f(3) + 0.5, f(5)]), t_profile=[1.0, 0.5, 2.0, 1.5], f_profile=stg.sinc2_f_profile(4.0 * DF))
@@ -66,6 +66,11 @@ def signal_args(fr, name):
         return dict(path=stg.squared_path(f(4), 0.8), t_profile=stg.sine_t_profile(5.0), f_profile=stg.voigt_f_profile(2.0, 1.0),
                     bp_profile=stg.constant_bp_profile(0.9), integrate_path=True, integrate_t_profile=True, integrate_f_profile=True,
                     doppler_smearing=True, t_subsamples=2, f_subsamples=2, smearing_subsamples=2)
+    if name == 'pulse_phase':
+        # shipped time profile with a non-zero phase (seeded), time-varying path in the same call
+        return dict(path=stg.sine_path(f(8), 0.3, 5.0, 1.5),
+                    t_profile=stg.periodic_gaussian_t_profile(1.0, 2.0, phase=0.7, pulse_offset_width=0.2, seed=3),
+                    f_profile=stg.gaussian_f_profile(2.0))
     if name == 'smear_arrays':
         # caller-owned float64 ndarrays for every component that accepts one
         return dict(path=np.array([f(9), f(9) + 1.5, f(10) + 0.5, f(12), f(12) + 0.25]), t_profile=np.array([1.0, 0.5, 2.0, 1.5]),
